@@ -311,15 +311,15 @@ pub fn replicate_request(
                     reclaim_space,
                     db_names,
                 } => {
-                    let db_name = db_name
-                        .clone()
-                        .expect("db_name should be set for snapshot replication");
-                    log::debug!("Will replicate a snapshot to the database {}", db_name);
+                    // the selected database is only needed when no name was given
                     let db_names = if db_names.is_empty() {
-                        vec![db_name.to_string()]
+                        vec![db_name
+                            .clone()
+                            .expect("db_name should be set for snapshot replication")]
                     } else {
                         db_names
                     };
+                    log::debug!("Will replicate a snapshot of {}", db_names.join("|"));
                     replicate_web(
                         replication_sender,
                         format!(
